@@ -17,7 +17,8 @@ import gen_tables
 FINDINGS = ["df-23976"]      # bit i of Model/StlTriggers.v trigger_mask
 # repaired (fixed: entries; regression witnesses in harness/witnesses_c09.py): tcp-attribute-error 9e84fe8, mnr-sets-start-offset
 # 41b1329, sn-identity 434048d; and in the second phase tnb-zero-division, cumulative-before-first, tf-strip-not-cut,
-# comment-flag-ignored, iso6937-a4, blank-row-dropped, vp-zero-above-safe-area
+# comment-flag-ignored, iso6937-a4, blank-row-dropped, vp-zero-above-safe-area; and zero-row-count (repaired for C18's
+# stl-zero-row-count: a maximum row count below 1 is replaced by the default, no ZeroDivisionError is left)
 DFCS = [b"STL23.01", b"STL24.01", b"STL25.01", b"STL30.01", b"STL50.01"]
 NOMINAL = {b"STL23.01": 24, b"STL24.01": 24, b"STL25.01": 25, b"STL30.01": 30, b"STL50.01": 50}
 ERRORS = {"error": "EStruct", "AttributeError": "EAttribute", "ValueError": "EValue", "ZeroDivisionError": "EZeroDiv"}
@@ -249,8 +250,9 @@ def label_from(rng, F, drop, base_s, span_s):
     return (min(h, 255), m, sec, f)
 
 
-def gen_file(rng, profile):
-    """-> (bytes, cfg dict, description)"""
+def gen_file(rng, profile, low_rows=False):
+    """-> (bytes, cfg dict, description); low_rows: open subtitles whose declared row count is below 1 (GSI MNR 00 with
+    max_row_count=MNR, max_row_count 0 or negative) - the reader uses the default grid since the repair of the row count"""
     wild = {"wf": 0.0, "mild": 0.3, "wild": 1.0}[profile]
     dfc = rng.choice(DFCS) if rng.random() < 0.93 or profile == "wf" else rng.choice([b"STL60.01", b"STL25.02", b"        ", b"stl25.01"])
     F = NOMINAL.get(dfc, 25); drop = dfc == b"STL30.01"
@@ -282,7 +284,11 @@ def gen_file(rng, profile):
     elif r < 0.75: rows = "MNR"
     else: rows = rng.choice([23, 23, 11, 12, 24, 99, 2, 1]) if profile == "wf" or rng.random() < 0.8 else rng.choice([0, -3, 255, 1000])
     mnr = rng.choice([b"23", b"11", b"24", b"99", b"02", b"14"])
-    if profile != "wf" and rng.random() < 0.3: mnr = rng.choice([b"  ", b"XX", b"00", b" 9", b"9 ", b"-3", b"+7", b"1_", b"01"])
+    if profile != "wf" and rng.random() < 0.3: mnr = rng.choice([b"  ", b"XX", b"00", b"00", b" 9", b"9 ", b"-3", b"+7", b"1_", b"01", b"-0", b" 0"])
+    if low_rows:
+        if teletext: dsc = rng.choice([b"0", b"0", b" "]); teletext = False
+        rows = rng.choice([0, 0, -3, -1, -1000, "MNR", "MNR", "MNR"])
+        if rows == "MNR": mnr = b"00" if profile == "wf" or rng.random() < 0.6 else rng.choice([b"-3", b"-0", b" 0", b"0 ", b"-9", b"+0", b"0_"])
     max_rows = 23 if (rows is None or teletext) else (rows if rows != "MNR" else None)
     if max_rows is None:
         try: max_rows = int(mnr)
@@ -361,7 +367,9 @@ def gen_file(rng, profile):
         r = rng.random()
         if r < 0.15: data = data[:rng.randrange(0, len(data) + 1)]
         elif r < 0.25 and len(data) > 1024: data = data[:1024] + bytes(rng.randrange(256) for _ in range(128 * rng.randrange(1, 4)))
-    return data, cfg, dict(profile=profile, dfc=dfc.decode("latin1"), cct=cct.decode("latin1"), dsc=dsc.decode("latin1"), blocks=len(blocks))
+    declared = "default" if (rows is None or teletext) else ("below 1" if max_rows < 1 else "1.." if max_rows <= 99 else "100..")
+    return data, cfg, dict(profile=profile, dfc=dfc.decode("latin1"), cct=cct.decode("latin1"), dsc=dsc.decode("latin1"), blocks=len(blocks),
+                           declared_rows=declared)
 
 
 CORPUS_CFGS = [dict(start=None, rows=None, nofill=False, nopad=False, fonts=None, explicit=False),
@@ -477,6 +485,10 @@ def main():
     for i in range(n_gen):
         prof = "wf" if i % 10 < 6 else ("mild" if i % 10 < 9 else "wild")
         cases.append(gen_file(rng, prof))
+    # a declared row count below 1 (the input of the repaired ZeroDivisionError) on every run, next to the ones met above
+    for i in range(0 if replay is not None else (400 if thorough else 24)):
+        prof = "wf" if i % 10 < 6 else ("mild" if i % 10 < 9 else "wild")
+        cases.append(gen_file(rng, prof, low_rows=True))
     results = []; others = []
     for idx, (data, cfg, desc) in enumerate(cases):
         r = run_reader(data, cfg); results.append(r)
@@ -666,7 +678,8 @@ def main():
              "reserved and filler codes; teletext and open; all CCT values and an unknown one) through tf.to_model; "
              "(3) the 50 STL files of the test resources x configurations and byte-level generated files (60 % well-formed, 30 % mildly "
              "malformed, 10 % wild incl. truncation; comment subtitles, empty rows, VP 0, unused-space bytes inside fields, files that start "
-             "inside a cumulative set, TNB 0) x configurations through reader.to_model; every output canonicalised to language, "
+             "inside a cumulative set, TNB 0; max_row_count 0 / negative / MNR with GSI MNR 00, -3, -0 both at random and in a fixed share "
+             "of 24 quick / 400 thorough open-subtitle files per run) x configurations through reader.to_model; every output canonicalised to language, "
              "cell resolution, active area, body styles, regions (origin/extent/displayAlign), and per paragraph region, alignment, sizes, "
              "begin/end, runs (colours, italics, underline, text) and line breaks, plus the values passed to the progress callback; "
              "compared in Coq with M, judged by S; (4) program_start_tc / max_row_count values (TCP/MNR in any case, time codes with any "
@@ -677,7 +690,10 @@ def main():
                 ([dict(generated=cases[len(corpus) * 2][2], config=cases[len(corpus) * 2][1])] if len(cases) > len(corpus) * 2 else []),
         profiles=hist(lambda c: c[2].get("profile")), dfc=hist(lambda c: c[2].get("dfc", "corpus")), cct=hist(lambda c: c[2].get("cct", "corpus")),
         dsc=hist(lambda c: c[2].get("dsc", "corpus")), start_cfg=hist(lambda c: "None" if c[1]["start"] is None else ("TCP" if c[1]["start"] == "TCP" else "label")),
-        rows_cfg=hist(lambda c: str(c[1]["rows"]) if not isinstance(c[1]["rows"], int) else "int"),
+        rows_cfg=hist(lambda c: str(c[1]["rows"]) if not isinstance(c[1]["rows"], int) else ("int < 1" if c[1]["rows"] < 1 else "int >= 1")),
+        declared_row_count=hist(lambda c: c[2].get("declared_rows", "corpus")),
+        row_count_below_1_outcomes={k: sum(1 for c, r in zip(cases, results) if c[2].get("declared_rows") == "below 1" and (r[1] if r[0] == "err" else r[0]) == k)
+                                    for k in ("ok", "EStruct", "EValue", "EZeroDiv", "other")},
         outcomes={k: sum(1 for r in results if (r[1] if r[0] == "err" else r[0]) == k) for k in ("ok", "EStruct", "EAttribute", "EValue", "EZeroDiv", "other")},
         files_in_spec_domain=in_domain, files_spec_ok=spec_ok_n, files_excused_by_finding={k: len(v) for k, v in file_known.items()},
         model_code_mismatches=dict(iso=len(iso_m_bad), tf=len(tf_m_bad), files=len(file_m_bad), config=len(cfg_m_bad)),
@@ -686,7 +702,7 @@ def main():
                            rows_outcomes={k: sum(1 for _, _, o in rows_rows if k in o) for k in ("MrNone", "MrMNR", "MrInt", "EValue")}),
         progress_values=sum(len(r[2]) for r in results),
         s_failures_on_code=dict(iso=len(iso_s_bad), tf=len(tf_s_bad), files=len(file_s_bad)))
-    run.assumptions += ["S (Spec/Ebu3264Spec.v) is my reading of EBU Tech 3264-E (GSI/TTI layout, TF codes, CS/EBN semantics; VP 0 = the top row), ISO 6937 and "
+    run.assumptions += ["S (Spec/Ebu3264Spec.v) is my reading of EBU Tech 3264-E (GSI/TTI layout, TF codes, CS/EBN semantics; VP 0 = the top row; a declared row count that is not positive - MNR 00, max_row_count <= 0 - declares no grid: the default 23 rows), ISO 6937 and "
                         "ISO 8859-5/6/7/8; the single-byte ISO 6937 table agrees with glibc's ISO_6937 charmap except at 0xA4 (dollar sign, 1983 edition)",
                         "region geometry: the implementation computes in binary floating point, M and S in Q; compared up to 1e-9",
                         "canonicalisation of the ContentDocument (harness/c09.py canon_doc) observes what the STL reader sets and rejects any other shape",
